@@ -7,8 +7,21 @@
    that it can be compared with an strace of the real daemon); any process may take its next step at any
    time (label Step), may be SIGKILLed at any time (label Crash: the kernel drops its locks and
    descriptors, files stay) and a serving process may be asked to stop (label Term).
-   What lock.c asks the kernel for (flags, mode, lock shape, behaviour on EAGAIN) comes from
-   gen/GenStart.v, regenerated from the source on every run. *)
+   What lock.c asks the kernel for (flags, mode, lock shape, behaviour on EAGAIN) and whether random.c's seed
+   reader returns on an empty / short / complete seed file come from gen/GenStart.v, regenerated from the source
+   on every run.
+
+   Granularity: every system call of start-up and shutdown that changes the file system or the socket is a step
+   of its own, so that SIGKILL (label Crash, enabled in every state) falls after each of them: in particular
+   open(pid)/write(pid) and unlink(seed)/open(seed)/write(seed) are separate, and the states "pid file empty" and
+   "seed file empty" (killed between the open and the write) exist.  The close() of the pid and seed descriptors
+   changes nothing in the file system and shares the kill point of the preceding write.  A file's [content] is
+   None while it is empty / incomplete and Some p once process p has written it completely: for the seed file
+   this is the generation that wrote it.  The reads of start-up (lstat/open/fstat/read/close of the old seed,
+   random.c random_init) are the single step ReadSeed: it changes nothing; whether it returns on the file it finds
+   is a regenerated fact.  (random.c unlinks a seed file with wrong owner/permissions before the lock is taken;
+   munged creates its seed with mode 0600 and its own uid, so this branch is not reachable from the states the
+   program produces and is not modelled.)  Writes to the pid / seed file go through the name, not a descriptor. *)
 From Coq Require Import List Arith NArith Bool.
 From MV.gen Require Import GenStart.
 Import ListNotations.
@@ -25,23 +38,26 @@ Record inode := mkIno { ikind : kind; imode : N }.
 
 (* the step alphabet *)
 Inductive prim :=
+| ReadSeed            (* lstat, open (seed, O_RDONLY), fstat, read ... until seed_bytes or EOF, close *)
 | OpenLock            (* open (lock, O_WRONLY|O_CREAT|O_TRUNC, 0200) *)
 | FstatLock           (* fstat (fd): regular file, mode 0200, owner *)
 | SetLk               (* fcntl (fd, F_SETLK, F_WRLCK whole file); busy => log_err => exit *)
 | Unlink (n : name)   (* unlink (name), ENOENT tolerated *)
 | Bind                (* socket + bind (name): creates the socket inode; EADDRINUSE => exit *)
 | Listen
-| WritePid            (* fopen (pid, "w"); fprintf; fclose *)
+| OpenPid             (* fopen (pid, "w") = open (pid, O_WRONLY|O_CREAT|O_TRUNC): the file exists, empty *)
+| WritePid            (* fprintf; fclose: write (fd, "<pid>\n"); close *)
 | Serve               (* job_accept: blocks until SIGTERM/SIGINT *)
 | CloseSock
 | CloseLock           (* close (lockfile_fd): releases the lock *)
-| WriteSeed           (* open (seed, O_WRONLY|O_CREAT|O_TRUNC, 0600); write; close *)
+| OpenSeed            (* open (seed, O_WRONLY|O_CREAT|O_TRUNC, 0600): the file exists, empty *)
+| WriteSeed           (* write (fd, seed_bytes random bytes); close *)
 | Exit.
 
 Definition startup : list prim :=
-  [OpenLock; FstatLock; SetLk; Unlink NSock; Bind; Listen; Unlink NPid; WritePid].
+  [ReadSeed; OpenLock; FstatLock; SetLk; Unlink NSock; Bind; Listen; Unlink NPid; OpenPid; WritePid].
 Definition shutdown : list prim :=
-  [Unlink NSock; CloseSock; Unlink NLock; CloseLock; Unlink NSeed; WriteSeed; Unlink NPid; Exit].
+  [Unlink NSock; CloseSock; Unlink NLock; CloseLock; Unlink NSeed; OpenSeed; WriteSeed; Unlink NPid; Exit].
 Definition prog : list prim := startup ++ [Serve] ++ shutdown.
 Definition serve_pc : nat := length startup.
 
@@ -53,7 +69,7 @@ Record state := mkState {
   inodes   : nat -> inode;
   lockown  : nat -> option nat;      (* inode -> process holding the fcntl write lock *)
   listener : nat -> option nat;      (* socket inode -> process listening on it *)
-  content  : nat -> option nat;      (* pid-file inode -> pid written *)
+  content  : nat -> option nat;      (* pid / seed inode -> process that wrote it completely; None = empty *)
   next     : nat;                    (* next unused inode number *)
   procs    : nat -> proc }.
 
@@ -96,6 +112,12 @@ Definition stat_ok (nd : inode) : bool :=
 
 Definition exec (s : state) (p : nat) (pr : proc) (a : prim) : outcome :=
   match a with
+  | ReadSeed =>
+      match names s NSeed with
+      | None => Cont s pr                (* ENOENT: no seed to read *)
+      | Some f => if (match content s f with Some _ => seed_read_full_returns | None => seed_read_short_returns end)
+                  then Cont s pr else Block          (* a read loop that never ends *)
+      end
   | OpenLock =>
       match names s NLock with
       | Some i => if lock_open_excl then Fail s else Cont s (set_lockfd pr (Some i))
@@ -133,10 +155,15 @@ Definition exec (s : state) (p : nat) (pr : proc) (a : prim) : outcome :=
       | Some j => Cont (set_listener s (upd (listener s) j (Some p))) pr
       | None => Fail s
       end
+  | OpenPid =>
+      match names s NPid with
+      | Some f => Cont (set_content s (upd (content s) f None)) pr                       (* O_TRUNC *)
+      | None => Cont (set_content (alloc s NPid (mkIno Reg 420)) (upd (content s) (next s) None)) pr
+      end
   | WritePid =>
       match names s NPid with
       | Some f => Cont (set_content s (upd (content s) f (Some p))) pr
-      | None => Cont (set_content (alloc s NPid (mkIno Reg 420)) (upd (content s) (next s) (Some p))) pr
+      | None => Cont s pr
       end
   | Serve => Block
   | CloseSock =>
@@ -149,10 +176,15 @@ Definition exec (s : state) (p : nat) (pr : proc) (a : prim) : outcome :=
       | Some i => Cont (set_lockown s (release1 (lockown s) i p)) (set_lockfd pr None)
       | None => Cont s pr
       end
+  | OpenSeed =>
+      match names s NSeed with
+      | Some f => Cont (set_content s (upd (content s) f None)) pr                       (* O_TRUNC *)
+      | None => Cont (set_content (alloc s NSeed (mkIno Reg 384)) (upd (content s) (next s) None)) pr
+      end
   | WriteSeed =>
       match names s NSeed with
-      | Some _ => Cont s pr
-      | None => Cont (alloc s NSeed (mkIno Reg 384)) pr
+      | Some f => Cont (set_content s (upd (content s) f (Some p))) pr
+      | None => Cont s pr
       end
   | Exit => Done s
   end.
@@ -223,7 +255,7 @@ Definition serving (s : state) (p : nat) : bool :=
 
 (* steps that unlink, bind or write one of the socket / pid / seed names, or unlink the lock name *)
 Definition mutating (a : prim) : bool :=
-  match a with Unlink _ | Bind | WritePid | WriteSeed => true | _ => false end.
+  match a with Unlink _ | Bind | OpenPid | WritePid | OpenSeed | WriteSeed => true | _ => false end.
 
 Definition next_prim (s : state) (p : nat) : option prim := nth_error prog (pc (procs s p)).
 
@@ -231,10 +263,10 @@ Definition next_prim (s : state) (p : nat) : option prim := nth_error prog (pc (
 Definition life (p : nat) : list label :=
   repeat (Step p) serve_pc ++ [Term p] ++ repeat (Step p) (length shutdown).
 
-(* finding F-C15-unlink: A serves; B opens the lock file; A stops cleanly; B goes on; C starts *)
+(* finding F-C15-unlink: A serves; B reads the seed and opens the lock file; A stops cleanly; B goes on; C starts *)
 Definition overlap_sched (a b c : nat) : list label :=
-  repeat (Step a) serve_pc ++ [Step b] ++ [Term a] ++ repeat (Step a) (length shutdown)
-  ++ repeat (Step b) (serve_pc - 1) ++ repeat (Step c) serve_pc.
+  repeat (Step a) serve_pc ++ [Step b; Step b] ++ [Term a] ++ repeat (Step a) (length shutdown)
+  ++ repeat (Step b) (serve_pc - 2) ++ repeat (Step c) serve_pc.
 
 (* printable observation of one process and of the names, for the oracle *)
 Definition status_code (x : status) : nat :=
@@ -245,6 +277,9 @@ Definition obs_names (s : state) : list (option nat) :=
   [names s NLock; names s NSock; names s NPid; names s NSeed].
 Definition pid_content (s : state) : option nat :=
   match names s NPid with Some f => content s f | None => None end.
+(* who wrote the seed file the seed name leads to (None: no seed file, or an empty one) *)
+Definition seed_content (s : state) : option nat :=
+  match names s NSeed with Some f => content s f | None => None end.
 Definition sock_listener (s : state) : option nat :=
   match names s NSock with Some j => listener s j | None => None end.
 Definition lock_holder (s : state) : option nat :=
